@@ -1,0 +1,10 @@
+//go:build verif
+
+package arrayqueue
+
+import "github.com/emirpasic/gods/v2/lists/arraylist"
+
+// VerifInner returns the backing array list.
+func (queue *Queue[T]) VerifInner() *arraylist.List[T] {
+	return queue.list
+}
